@@ -165,8 +165,14 @@ def r15_2(ctx) -> None:
             txt = norm(r0)
             good = txt == f"{sn}.header_registry"
             if not good and isinstance(r0, ast.Name):
-                defs = eng.flow._defs(fn).get(r0.id, [])
-                good = any(k == "assign" and norm(d).startswith(f"{sn}.header_registry") for k, d, e in defs if isinstance(d, ast.AST))
+                # every definition of the local is built from the *instance* registry (+ the model's own table) only:
+                # a value fetched from anywhere else (a cache shared between instances, a module table) is refused
+                defs = [(k, d) for k, d, e in eng.flow._defs(fn).get(r0.id, []) if isinstance(d, ast.AST)]
+                assigns = [d for k, d in defs if k == "assign"]
+                muts = [d for k, d in defs if k != "assign"]
+                good = bool(assigns) and all(_registry_roots_ok(d, sn) for d in assigns) and all(
+                    k == "mut-call" and isinstance(d, ast.Call) and isinstance(d.func, ast.Attribute) and d.func.attr == "update" and len(d.args) == 1 and not d.keywords
+                    and norm(d.args[0]).endswith(".more_header_registry") for k, d in defs if k != "assign")
             ctx.check(good, "R15.2", fn, s.node, f"{fn.short} :: {norm(s.node)[:50]}", "check_supported_header is not given the instance header registry",
                       "registry derived from self.header_registry", construct="registry of check_supported_header")
         # JWE: algorithm specific parameters
@@ -194,6 +200,10 @@ def r15_2(ctx) -> None:
             # union registry for the strict check
             upd = [n for n in fn_nodes(fn) if isinstance(n, ast.Call) and isinstance(n.func, ast.Attribute) and n.func.attr == "update"
                    and n.args and norm(n.args[0]).endswith(".more_header_registry")]
+            if not upd:
+                # literal union forms: {**self.header_registry, **alg.more_header_registry} / a | b
+                upd = [n for n in fn_nodes(fn) if isinstance(n, ast.Assign) and isinstance(n.value, (ast.Dict, ast.BinOp))
+                       and any(isinstance(x, ast.Attribute) and x.attr == "more_header_registry" for x in ast.walk(n.value))]
             ctx.check(bool(upd), "R15.2", fn, fn.node, f"{fn.short} :: union registry", "strict check does not admit the algorithm's own parameters", "allowed = instance registry + more_header_registry",
                       construct="union registry")
     for fn in overrides:
@@ -221,6 +231,39 @@ def r15_2(ctx) -> None:
                         okb = False
         ctx.check(okb, "R15.2", fn, fn.node, f"{fn.short} :: b64 needs crit", "a header with b64 can pass without the crit check", "`'b64' in header` always leads through the crit gate",
                   construct="b64 crit gate")
+
+
+def _registry_roots_ok(e: ast.AST, sn: str) -> bool:
+    """the expression reads self.header_registry and, besides it, only <model>.more_header_registry / dict()"""
+    roots = set()
+
+    def walk(x):
+        if isinstance(x, ast.Call):
+            f = x.func
+            if isinstance(f, ast.Attribute) and f.attr in ("copy",):
+                walk(f.value)
+            elif isinstance(f, ast.Name) and f.id == "dict":
+                pass
+            else:
+                roots.add("call:" + norm(f))
+            for a in x.args:
+                walk(a)
+            for k in x.keywords:
+                walk(k.value)
+        elif isinstance(x, (ast.Attribute, ast.Name)):
+            roots.add(norm(x))
+        elif isinstance(x, ast.Dict):
+            for k, v in zip(x.keys, x.values):
+                if k is not None:
+                    roots.add("key")
+                walk(v)
+        elif isinstance(x, ast.BinOp) and isinstance(x.op, ast.BitOr):
+            walk(x.left)
+            walk(x.right)
+        else:
+            roots.add("other:" + type(x).__name__)
+    walk(e)
+    return f"{sn}.header_registry" in roots and all(r == f"{sn}.header_registry" or (r.endswith(".more_header_registry") and not r.startswith(("call:", "other:"))) for r in roots)
 
 
 def _is_b64_crit_gate(eng, fn: FunctionInfo) -> bool:
